@@ -3,8 +3,10 @@ package p14
 
 import (
 	"fmt"
+	"os"
 	"strings"
 	"testing"
+	"time"
 
 	"pgregory.net/rapid"
 	"verif/harness/eng"
@@ -19,7 +21,8 @@ type Case struct {
 	Src     string `json:"src"`
 	StopAt  int    `json:"stop_at"`
 	Endless bool   `json:"endless"`
-	Markers int    `json:"markers"` // loop iterations + calls predicted by the reference run (0 = unknown)
+	Quiet   int    `json:"quiet_iterations,omitempty"` // iterations of loops whose body has no statement (no marker): each must still yield
+	Markers int    `json:"markers"`                    // loop iterations + calls predicted by the reference run (0 = unknown)
 }
 
 func isSummary(e string) bool {
@@ -68,8 +71,8 @@ func density(c Case) (*h.Failure, *fullRun) {
 			yieldsSince = 0
 		}
 	}
-	if res.Yields < markers {
-		return mk("too-few-yields", fmt.Sprintf("%d yields for %d loop iterations and calls", res.Yields, markers)), nil
+	if res.Yields < markers+c.Quiet {
+		return mk("too-few-yields", fmt.Sprintf("%d yields for %d loop iterations and calls (%d of them iterations of loops without a statement in the body)", res.Yields, markers+c.Quiet, c.Quiet)), nil
 	}
 	if c.Markers > 0 && res.Out.Class == "ok" && markers != c.Markers {
 		return mk("marker-count", fmt.Sprintf("the run shows %d loop iterations and calls, the language definition prescribes %d", markers, c.Markers)), nil
@@ -168,8 +171,34 @@ func TestProp(t *testing.T) {
 				endless = false
 			}
 		}
+		// a loop whose body has no statement: blank lines and comments only
+		quietBody := func() []m.Stmt {
+			switch rapid.IntRange(0, 3).Draw(t, "quietbody") {
+			case 0:
+				return []m.Stmt{&m.Blank{Comment: "nothing to do"}}
+			case 1:
+				return []m.Stmt{&m.Blank{}}
+			case 2:
+				return []m.Stmt{&m.Blank{}, &m.Blank{Comment: "busy wait"}, &m.Blank{}}
+			}
+			return []m.Stmt{&m.Blank{Comment: "todo"}, &m.Blank{Comment: "later"}} // (a block needs at least one line)
+		}
+		quiet := 0
+		if !endless && rapid.IntRange(0, 2).Draw(t, "quietloop") == 0 {
+			n := rapid.IntRange(1, 300).Draw(t, "quietn")
+			f := &m.ForNum{Stop: m.NumLit(float64(n)), Body: quietBody()}
+			var st m.Stmt = f
+			if rapid.IntRange(0, 3).Draw(t, "quietover") == 0 {
+				st = &m.ForIn{V: f.V, X: m.StrLit(strings.Repeat("x", n)), Body: f.Body}
+			}
+			p.Items = append(p.Items, m.Item{S: st})
+			quiet = n
+		}
 		if endless {
 			body := []m.Stmt{gen.Print(m.StrLit("@iter")), gen.Print(m.StrLit("spin"))}
+			if rapid.IntRange(0, 2).Draw(t, "quietforever") == 0 {
+				body = quietBody()
+			}
 			if rapid.Bool().Draw(t, "forever-for") {
 				big := &m.Binary{Op: "*", L: m.NumLit(1e150), R: m.NumLit(1e150), Ty: m.TNum}
 				p.Items = append(p.Items, m.Item{S: &m.ForNum{Stop: big, Body: body}})
@@ -179,6 +208,9 @@ func TestProp(t *testing.T) {
 		}
 		src, _ := m.Render(p, eng.RapidLayout{T: t, Calm: true})
 		c := Case{Src: src, Endless: endless}
+		// a loop that never yields cannot be given a budget from outside: the run would never come back
+		done := h.WatchFail(src, 5*time.Minute, &h.Failure{Property: "C14", Kind: "never-yields", Detail: "the run did not come back within 5 minutes: every budget of the harness is checked in Yield, so some loop runs without yielding", Src: src, Case: c})
+		defer done()
 		var full *fullRun
 		if !endless {
 			_, out, in := eng.Reference(p, nil)
@@ -196,6 +228,7 @@ func TestProp(t *testing.T) {
 				}
 				if out.Class == "ok" {
 					c.Markers = n
+					c.Quiet = quiet
 				}
 			}
 			var fl *h.Failure
@@ -269,5 +302,14 @@ func TestReplay(t *testing.T) {
 	if _, err := h.LoadReplay(path, &c); err != nil {
 		t.Fatalf("cannot load replay: %v", err)
 	}
-	ctx.FinishReplay(t, checkCase(c))
+	// a case that never yields never comes back: decide it by the clock, as the search does
+	ch := make(chan *h.Failure, 1)
+	go func() { ch <- checkCase(c) }()
+	select {
+	case fl := <-ch:
+		ctx.FinishReplay(t, fl)
+	case <-time.After(3 * time.Minute):
+		ctx.FinishReplay(t, &h.Failure{Kind: "never-yields", Detail: "the run did not come back within 3 minutes: some loop runs without yielding", Src: c.Src, Case: c})
+		os.Exit(0) // the spinning goroutine cannot be stopped
+	}
 }
